@@ -86,8 +86,90 @@ func factsRfc822(c *factsCtx, outdir string) error {
 		}
 		return sites[i].line < sites[j].line
 	})
+	// --- numbers of a partial: rfcparser.ParseNumber rejects values above math.MaxUint32 inside its digit
+	// loop, handleBodyFetchAttribute reads `offset` with ParseNumber and `count` with ParseNZNumber, and
+	// ParseNZNumber is ParseNumber plus a `num <= 0` rejection.
+	numberMax := "none"
+	for _, f := range c.parseDir("rfcparser") {
+		for _, d := range f.Decls {
+			fd, ok := d.(*ast.FuncDecl)
+			if !ok || fd.Name.Name != "ParseNumber" || fd.Body == nil {
+				continue
+			}
+			ast.Inspect(fd.Body, func(n ast.Node) bool {
+				is, ok := n.(*ast.IfStmt)
+				if !ok {
+					return true
+				}
+				be, ok := is.Cond.(*ast.BinaryExpr)
+				if !ok || be.Op != token.GTR || identLit(be.X) != "number" {
+					return true
+				}
+				se, ok := be.Y.(*ast.SelectorExpr)
+				if !ok || identLit(se.X) != "math" || se.Sel.Name != "MaxUint32" {
+					return true
+				}
+				// the guarded block must leave the function with an error
+				if len(is.Body.List) == 1 {
+					if rs, ok := is.Body.List[0].(*ast.ReturnStmt); ok && len(rs.Results) == 2 && identLit(rs.Results[1]) != "nil" {
+						numberMax = "(some 4294967295)"
+					}
+				}
+				return true
+			})
+		}
+	}
+	offsetParser, countParser := "unknown", "unknown"
+	nzUsesParseNumber, nzRejectsZero := false, false
+	for _, f := range c.parseDir("imap/command") {
+		for _, d := range f.Decls {
+			fd, ok := d.(*ast.FuncDecl)
+			if !ok || fd.Body == nil {
+				continue
+			}
+			switch fd.Name.Name {
+			case "handleBodyFetchAttribute":
+				ast.Inspect(fd.Body, func(n ast.Node) bool {
+					as, ok := n.(*ast.AssignStmt)
+					if !ok || len(as.Lhs) < 1 || len(as.Rhs) != 1 {
+						return true
+					}
+					call, ok := as.Rhs[0].(*ast.CallExpr)
+					if !ok {
+						return true
+					}
+					switch identLit(as.Lhs[0]) {
+					case "offset":
+						offsetParser = calleeName(call)
+					case "count":
+						countParser = calleeName(call)
+					}
+					return true
+				})
+			case "ParseNZNumber":
+				ast.Inspect(fd.Body, func(n ast.Node) bool {
+					switch x := n.(type) {
+					case *ast.CallExpr:
+						if calleeName(x) == "ParseNumber" {
+							nzUsesParseNumber = true
+						}
+					case *ast.IfStmt:
+						if be, ok := x.Cond.(*ast.BinaryExpr); ok && be.Op == token.LEQ && identLit(be.X) == "num" {
+							if bl, ok := be.Y.(*ast.BasicLit); ok && bl.Value == "0" {
+								nzRejectsZero = true
+							}
+						}
+					}
+					return true
+				})
+			}
+		}
+	}
 	var b strings.Builder
 	b.WriteString("namespace Gluon.Facts\n\n")
+	fmt.Fprintf(&b, "/-- largest value rfcparser.ParseNumber accepts (`none` = no `number > math.MaxUint32` rejection found) -/\ndef parseNumberMax : Option Nat := %s\n\n", numberMax)
+	fmt.Fprintf(&b, "/-- the functions handleBodyFetchAttribute reads `<offset.count>` with -/\ndef partialOffsetParser : String := %s\ndef partialCountParser : String := %s\n\n", leanStr(offsetParser), leanStr(countParser))
+	fmt.Fprintf(&b, "/-- ParseNZNumber calls ParseNumber / rejects `num <= 0` -/\ndef nzNumberUsesParseNumber : Bool := %v\ndef nzNumberRejectsZero : Bool := %v\n\n", nzUsesParseNumber, nzRejectsZero)
 	b.WriteString("/-- the string constant `ids.InternalIDKey` (`none` = not found as a string literal) -/\n")
 	if known {
 		var bs []string
